@@ -38,6 +38,8 @@ SCOPE = {"quick": "700 datasets (n<=3, m<=2, exhaustive) x 3 (naming, scheme) + 
                   "all-zero T)" % len(base.SCHEMES),
          "thorough": "adds all datasets n<=3 m=3 (17.6k), n=4 m<=2 (22k), 8000 sampled (n<=6, m<=5)"}
 CHUNK = 4
+# every 6th case is run a second time with every algorithm object used before on related inputs (bounded/algs.py: warm)
+WARM_EVERY = {"quick": 6, "thorough": 6}
 TIMEOUT = 300
 TOL = 1e-6
 ASSUMPTIONS = base.ASSUMPTIONS
